@@ -173,10 +173,35 @@ func guardReq(f func() reqOutcome) (o reqOutcome) {
 	return f()
 }
 
+// cursorReader is a *bytes.Reader (with everything a bytes.Reader offers) that remembers how
+// far ReadAt was asked to read.
+type cursorReader struct {
+	*bytes.Reader
+	maxEnd int64
+}
+
+func (c *cursorReader) ReadAt(p []byte, off int64) (int, error) {
+	n, err := c.Reader.ReadAt(p, off)
+	if n > 0 && off+int64(n) > c.maxEnd {
+		c.maxEnd = off + int64(n)
+	}
+	return n, err
+}
+
 func decodeRequest(et int8, b []byte, plan simio.Plan) reqOutcome {
 	return guardReq(func() reqOutcome {
-		ra := simio.NewReaderAt(b, plan)
-		ra.Budget = budgetFor(len(b))
+		var ra io.ReaderAt
+		var maxEnd *int64
+		if plan.TruncAt < 0 && plan.ErrAt < 0 && ch("c12.request-in-a-bytes-reader", 4) == 1 {
+			// the caller's own reader, its Read cursor wherever a checksum pass or a sniff left it
+			rd := &cursorReader{Reader: bytes.NewReader(b)}
+			rd.Seek(int64([]int{0, 2, len(b) / 2, len(b)}[ch("c12.reader-cursor", 4)]), io.SeekStart)
+			ra, maxEnd = rd, &rd.maxEnd
+		} else {
+			sra := simio.NewReaderAt(b, plan)
+			sra.Budget = budgetFor(len(b))
+			ra, maxEnd = sra, &sra.MaxEnd
+		}
 		v, resp, err := binary.Default.DecodeRequest(wire.EnvelopeType(et), ra)
 		if err != nil {
 			return reqOutcome{err: err.Error()}
@@ -186,14 +211,16 @@ func decodeRequest(et int8, b []byte, plan simio.Plan) reqOutcome {
 			return reqOutcome{err: "force: " + err.Error()}
 		}
 		k, n, s := classify(resp)
-		return reqOutcome{ok: true, body: body, kind: k, name: n, seqid: s, resp: resp, used: ra.MaxEnd}
+		return reqOutcome{ok: true, body: body, kind: k, name: n, seqid: s, resp: resp, used: *maxEnd}
 	})
 }
 
 func readRequest(et int8, r io.Reader, raw *simio.Reader) reqOutcome {
 	return guardReq(func() reqOutcome {
 		gb := &genericBody{}
-		rw, err := binary.Default.ReadRequest(context.Background(), wire.EnvelopeType(et), r, gb)
+		ctx, done := context.WithCancel(context.Background())
+		rw, err := binary.Default.ReadRequest(ctx, wire.EnvelopeType(et), r, gb)
+		done() // the request's context ends once the request has been read
 		if err != nil {
 			return reqOutcome{err: err.Error()}
 		}
